@@ -4,3 +4,5 @@ import VhostModel.Gen.Flags
 import VhostModel.Gen.Consts
 import VhostModel.Gen.Layout
 import VhostModel.Gen.Validators
+import VhostModel.Base.Ioctl
+import VhostModel.Gen.Ioctl
